@@ -12,7 +12,7 @@
 From Coq Require Import List NArith ZArith Bool.
 From RPFT Require Import Base.Sexp Base.PyStr Base.Result Gen.Tables Cell.Cell Row.Ty Row.Layout Row.RowParse
   Row.RowUnparse Row.FlowRow Row.RowFacts Row.TextFacts Row.RoundTrip Row.RoundTripFacts Row.RoundTripExamples
-  Row.RefuteFacts.
+  Row.RefuteFacts Row.CtxRoundTripFacts Row.FlowRowFacts.
 Import ListNotations.
 
 (* the regenerated constants satisfy what the proofs need *)
@@ -46,6 +46,71 @@ Print Assumptions C07_row_roundtrip_nonvacuous_cells.
 Example C07_row_roundtrip_nonvacuous_spread : row_dom ex_ty ex_v [] = true.
 Proof. exact ex_in_domain_spread. Qed.
 Print Assumptions C07_row_roundtrip_nonvacuous_spread.
+
+(* 2. the instance for the REGENERATED flow row model (its row-type dependent header remap,
+      the export targets FlowContainer.to_row_data_sheet passes, strip_uuids = False).
+      [flow_dom v]: the row type is a known one and v is in [row_dom] for FlowRowModel read with
+      the header table of that row type (so at most the main argument of its row type is set). *)
+Theorem C07_flow_row_roundtrip : forall v,
+  flow_dom v = true ->
+  exists cells, flow_unparse v false = Ok cells /\ flow_parse cells = Ok v.
+Proof. exact flow_row_roundtrip. Qed.
+Print Assumptions C07_flow_row_roundtrip.
+
+Example C07_flow_row_roundtrip_nonvacuous : flow_dom ex_flow_row = true.
+Proof. exact ex_flow_in_domain. Qed.
+Print Assumptions C07_flow_row_roundtrip_nonvacuous.
+
+(* the same for any row model with a context remap (generic over the tables) *)
+Theorem C07_ctx_row_roundtrip : forall cx fields f2h,
+  ctx_wf cx fields f2h = true -> forall v targets,
+  ctx_row_dom cx fields f2h v targets = true ->
+  exists cells, unparse_row (TModel fields [] f2h) v targets [] = Ok cells
+                /\ parse_row {| rm_ty := TModel fields [] f2h; rm_ctx := Some cx |} cells = Ok v.
+Proof. exact ctx_row_roundtrip. Qed.
+Print Assumptions C07_ctx_row_roundtrip.
+
+Example C07_ctx_row_roundtrip_nonvacuous : ctx_wf flow_cx flow_fields flow_f2h = true.
+Proof. exact flow_ctx_wf. Qed.
+Print Assumptions C07_ctx_row_roundtrip_nonvacuous.
+
+(* the remap tables, finite proofs over the regenerated tables: for every known row type the
+   header a field is written under is re-keyed back to that field (message_text: to the main
+   argument of the row type); every main argument is selected by some row type; in the
+   sub-models header_name_to_field_name inverts field_name_to_header_name *)
+Theorem C07_flow_remap_identity : forall rt f n,
+  In (rt, f) (cx_sw_table flow_cx) -> In n (map f_name flow_fields) ->
+  (remap_get flow_f2h n = cx_sw_header flow_cx -> f = n) ->
+  ctx_h2f (Some flow_cx) [(cx_sw_column flow_cx, rt)] (remap_get flow_f2h n) = Ok n.
+Proof. exact flow_remap_identity. Qed.
+Print Assumptions C07_flow_remap_identity.
+
+Example C07_flow_remap_identity_nonvacuous :
+  In ([115; 101; 110; 100; 95; 109; 101; 115; 115; 97; 103; 101]%N,
+      [109; 97; 105; 110; 97; 114; 103; 95; 109; 101; 115; 115; 97; 103; 101; 95; 116; 101; 120; 116]%N) (cx_sw_table flow_cx)
+  /\ In [109; 97; 105; 110; 97; 114; 103; 95; 109; 101; 115; 115; 97; 103; 101; 95; 116; 101; 120; 116]%N (map f_name flow_fields)
+  /\ remap_get flow_f2h [109; 97; 105; 110; 97; 114; 103; 95; 109; 101; 115; 115; 97; 103; 101; 95; 116; 101; 120; 116]%N = cx_sw_header flow_cx.
+Proof. exact flow_remap_identity_hyps. Qed.
+Print Assumptions C07_flow_remap_identity_nonvacuous.
+
+Theorem C07_flow_mainargs_reachable : flow_mainargs_reachable = true.
+Proof. exact flow_mainargs_reachable_true. Qed.
+Print Assumptions C07_flow_mainargs_reachable.
+
+Theorem C07_flow_submodel_remaps_inverse : forallb (fun f => remaps_inverse (f_ty f)) flow_fields = true.
+Proof. exact flow_submodel_remaps_inverse. Qed.
+Print Assumptions C07_flow_submodel_remaps_inverse.
+
+(* outside flow_dom: the main argument of another row type is written under message_text and
+   comes back in the wrong field (or not at all) *)
+Theorem C07_flow_wrong_mainarg_refuted :
+  flow_dom ex_flow_wrong_mainarg = false
+  /\ match flow_unparse ex_flow_wrong_mainarg false with
+     | Ok cells => match flow_parse cells with Ok v' => negb (value_eqb v' ex_flow_wrong_mainarg) | Err _ => true end
+     | Err _ => true
+     end = true.
+Proof. exact flow_wrong_mainarg_refuted. Qed.
+Print Assumptions C07_flow_wrong_mainarg_refuted.
 
 (* 4. the hypotheses cannot be dropped: witnesses outside the domain (replayed on the real
       RowParser by the harness) *)
